@@ -1,4 +1,5 @@
 import BeffVerif.Props.C06
+import BeffVerif.Props.C06Sem
 open BeffVerif.C06
 #print axioms bdd_union_exact
 #print axioms bdd_intersect_exact
@@ -8,3 +9,7 @@ open BeffVerif.C06
 #print axioms dnf_of_bdd_exact
 #print axioms dnf_to_bdd_exact
 #print axioms dnf_roundtrip_exact
+#print axioms semtype_intersect_exact
+#print axioms semtype_union_exact
+#print axioms semtype_diff_exact
+#print axioms semtype_complement_exact
